@@ -16,4 +16,7 @@ let table : (Stdlib.String.t * (z list -> z list)) list = [
   "c05vs", c05vs_entry;
   "c05es", c05es_entry;
   "c05t", c05t_entry;
+  "c04e", c04e_entry;
+  "c04d", c04d_entry;
+  "c04s", c04s_entry;
 ]
